@@ -52,23 +52,27 @@ type recorder struct {
 	e *Env
 
 	comments []string
-	h        []string
-	t        []string
+	events   []string // H and T lines of the current op, in call order
 
 	faultK int // index of the call that must fail during the current op; -1 = none
 	calls  int // number of fault-countable calls made so far during the current op
 
-	failhooks map[string]bool // "<HookName>/<idx>" -> pending (persists until fired or reset)
+	failhooks map[string]bool // "<HookName>/<idx>" -> must fail during the current op (first call only)
 }
 
 func newRecorder(e *Env) *recorder {
 	return &recorder{e: e, faultK: -1, failhooks: map[string]bool{}}
 }
 
-func (r *recorder) beginOp(faultK int) {
-	r.comments, r.h, r.t = nil, nil, nil
+// beginOp clears the log and installs the injections that are active during this op.
+func (r *recorder) beginOp(faultK int, failhooks map[string]bool) {
+	r.comments, r.events = nil, nil
 	r.faultK = faultK
 	r.calls = 0
+	r.failhooks = map[string]bool{}
+	for k := range failhooks {
+		r.failhooks[k] = true
+	}
 }
 
 func (r *recorder) comment(format string, args ...interface{}) {
@@ -90,7 +94,7 @@ func (r *recorder) call(desc string, exec func() error) error {
 		r.comment("Tfail (call %d) %s: %v", idx, desc, err)
 		return err
 	}
-	r.t = append(r.t, "T "+desc)
+	r.events = append(r.events, "T "+desc)
 	return nil
 }
 
@@ -171,7 +175,7 @@ type listener struct {
 var _ types.FundraisingHooks = (*listener)(nil)
 
 // hook records one hook call.  A listener whose index is >= the active listener count behaves
-// as if it were not registered at all (no H line, pending failhook not consumed, returns nil).
+// as if it were not registered at all (no H line, returns nil).
 func (l *listener) hook(name string, args ...string) error {
 	if l.idx >= l.r.e.nListeners {
 		return nil
@@ -180,7 +184,7 @@ func (l *listener) hook(name string, args ...string) error {
 	if len(args) > 0 {
 		line += " " + strings.Join(args, " ")
 	}
-	l.r.h = append(l.r.h, line)
+	l.r.events = append(l.r.events, line)
 	key := fmt.Sprintf("%s/%d", name, l.idx)
 	if l.r.failhooks[key] {
 		delete(l.r.failhooks, key)
